@@ -21,6 +21,7 @@ import (
 	"fmt"
 	"sync"
 
+	getty "github.com/apache/dubbo-getty"
 	gxtime "github.com/dubbogo/gost/time"
 	"go.uber.org/atomic"
 
@@ -66,6 +67,30 @@ func (client *GettyRemotingClient) SendAsyncRequest(msg interface{}) error {
 		Body:       msg,
 	}
 	return client.gettyRemoting.SendAsync(rpcMessage, nil, client.asyncCallback)
+}
+
+// SendSyncRequestOnSession sends msg over the given session (no load balancing) and waits for the response
+func (client *GettyRemotingClient) SendSyncRequestOnSession(session getty.Session, msg interface{}) (interface{}, error) {
+	rpcMessage := message.RpcMessage{
+		ID:         int32(client.idGenerator.Inc()),
+		Type:       message.GettyRequestTypeRequestSync,
+		Codec:      byte(codec.CodecTypeSeata),
+		Compressor: 0,
+		Body:       msg,
+	}
+	return client.gettyRemoting.SendSync(rpcMessage, session, client.syncCallback)
+}
+
+// SendAsyncRequestOnSession sends msg over the given session (no load balancing)
+func (client *GettyRemotingClient) SendAsyncRequestOnSession(session getty.Session, msg interface{}) error {
+	rpcMessage := message.RpcMessage{
+		ID:         int32(client.idGenerator.Inc()),
+		Type:       message.GettyRequestTypeRequestOneway,
+		Codec:      byte(codec.CodecTypeSeata),
+		Compressor: 0,
+		Body:       msg,
+	}
+	return client.gettyRemoting.SendAsync(rpcMessage, session, client.asyncCallback)
 }
 
 func (client *GettyRemotingClient) SendAsyncResponse(msgID int32, msg interface{}) error {
